@@ -45,6 +45,7 @@ type c10ctx struct {
 	r          *Report
 	stateType  *types.Named
 	stateField string
+	setters    map[*ssa.Function]int // state setter -> index of the parameter stored (-1: not a setter)
 	lockField  string
 	consts     map[string]int64 // Inactive, Starting, Active, Stopping
 	core       *ssa.Function
@@ -165,6 +166,80 @@ func (c *c10ctx) anchors() bool {
 	return true
 }
 
+// c10write: one write of the life-cycle field: a store, or a call of a setter (a helper whose
+// stores of the field are all of one of its parameters: `setStateLocked(s)`) with the value handed in.
+type c10write struct {
+	At  ssa.Instruction
+	Val ssa.Value
+}
+
+// stateSetter: every store of the life-cycle field in fn stores the same parameter of fn, on every
+// way through fn; returns that parameter's index.
+func (c *c10ctx) stateSetter(fn *ssa.Function) (int, bool) {
+	if fn == nil || fn.Blocks == nil {
+		return 0, false
+	}
+	if k, ok := c.setters[fn]; ok {
+		return k, k >= 0
+	}
+	idx := -1
+	stores := StoresTo(fn, c.anyT.Obj().Name(), c.stateField)
+	for _, st := range stores {
+		prm, ok := stripConv(st.Val).(*ssa.Parameter)
+		if !ok || !alwaysExecutes(st) {
+			idx = -2
+			break
+		}
+		k := -1
+		for i, q := range fn.Params {
+			if q == prm {
+				k = i
+			}
+		}
+		if k < 0 || (idx >= 0 && idx != k) {
+			idx = -2
+			break
+		}
+		idx = k
+	}
+	if len(stores) == 0 || idx < 0 {
+		idx = -1
+	}
+	if c.setters == nil {
+		c.setters = map[*ssa.Function]int{}
+	}
+	c.setters[fn] = idx
+	return idx, idx >= 0
+}
+
+// stateWrites: the writes of the life-cycle field made in fn: its own stores (a setter's stores of
+// its parameter are left to its callers) and its calls of setters.
+func (c *c10ctx) stateWrites(fn *ssa.Function) []c10write {
+	var out []c10write
+	if fn == nil || fn.Blocks == nil {
+		return out
+	}
+	if _, isSetter := c.stateSetter(fn); !isSetter {
+		for _, st := range StoresTo(fn, c.anyT.Obj().Name(), c.stateField) {
+			out = append(out, c10write{st, st.Val})
+		}
+	}
+	Instrs(fn, func(in ssa.Instruction) {
+		cc := CallOf(in)
+		if cc == nil {
+			return
+		}
+		if _, isGo := in.(*ssa.Go); isGo {
+			return
+		}
+		callee := cc.StaticCallee()
+		if k, ok := c.stateSetter(callee); ok && k < len(cc.Args) {
+			out = append(out, c10write{in, cc.Args[k]})
+		}
+	})
+	return out
+}
+
 // stateStores returns the constants an implementation stores into the life-cycle field.
 func (c *c10ctx) stateStores(fn *ssa.Function) map[int64]bool {
 	out := map[int64]bool{}
@@ -172,8 +247,8 @@ func (c *c10ctx) stateStores(fn *ssa.Function) map[int64]bool {
 	if fn == nil || fn.Blocks == nil {
 		return out
 	}
-	for _, st := range StoresTo(fn, c.anyT.Obj().Name(), c.stateField) {
-		if v, ok := constInt(stripConv(st.Val)); ok {
+	for _, w := range c.stateWrites(fn) {
+		if v, ok := constInt(stripConv(w.Val)); ok {
 			out[v] = true
 		} else {
 			out[-1] = true
@@ -425,10 +500,10 @@ func (c *c10ctx) ruleR1() {
 	// the Starting transition itself must be conditional on Inactive (checked on its implementations)
 	for _, impl := range c.impls(first) {
 		okc := false
-		for _, st := range StoresTo(impl, c.anyT.Obj().Name(), c.stateField) {
+		for _, w := range c.stateWrites(impl) {
 			// store must be controlled by the outcome "state == Inactive" of a comparison, however
 			// it is spelled (==, != on the other side, operands swapped, negated)
-			for _, ci := range controllingIfs(st.Block()) {
+			for _, ci := range controllingIfs(w.At.Block()) {
 				cond := ci.If.Cond
 				side := ci.Branch
 				for {
@@ -466,8 +541,8 @@ func (c *c10ctx) ruleR1() {
 			reach := map[string]bool{}
 			for _, nm := range names {
 				res := sccpFields(impl, nil, map[string]lat{c.stateField: latInt(c.consts[nm])})
-				for _, st := range StoresTo(impl, c.anyT.Obj().Name(), c.stateField) {
-					if v, isC := constInt(stripConv(st.Val)); isC && v == c.consts["Starting"] && res.Executable(st) {
+				for _, w := range c.stateWrites(impl) {
+					if v, isC := constInt(stripConv(w.Val)); isC && v == c.consts["Starting"] && res.Executable(w.At) {
 						reach[nm] = true
 					}
 				}
@@ -929,7 +1004,7 @@ func (c *c10ctx) ruleR3() {
 	}
 	// stores to the state field only with the mutex held
 	for _, fn := range p.LibFuncs() {
-		stores := StoresTo(fn, c.anyT.Obj().Name(), c.stateField)
+		stores := c.stateWrites(fn) // (a setter's own store is judged where the setter is called)
 		if len(stores) == 0 {
 			continue
 		}
@@ -940,9 +1015,9 @@ func (c *c10ctx) ruleR3() {
 		good := true
 		at := ""
 		for _, s := range stores {
-			if st[s] != 2 {
+			if st[s.At] != 2 {
 				good = false
-				at = p.InstrPos(s)
+				at = p.InstrPos(s.At)
 			}
 		}
 		r.Check(good, "C10.R3a", FuncName(fn)+" writes "+c.stateField+" under the mutex", p.Pos(fn.Pos()), "every store to the life-cycle state holds the mutex", "life-cycle state written at "+at+" without holding "+stateLock)
@@ -1041,8 +1116,8 @@ func (c *c10ctx) ruleR3() {
 		} else {
 			good := true
 			msg := ""
-			for _, s := range StoresTo(stopFn, c.anyT.Obj().Name(), c.stateField) {
-				if !InstrDominates(s, wait) {
+			for _, s := range c.stateWrites(stopFn) {
+				if !InstrDominates(s.At, wait) {
 					good = false
 					msg = "the Stopping store does not precede the wait"
 				}
@@ -1186,8 +1261,9 @@ func (c *c10ctx) ruleR3f() {
 	p, r := c.p, c.r
 	stateLock := c.anyT.Obj().Name() + "." + c.lockField
 	for _, fn := range p.LibFuncs() {
-		for _, st := range StoresTo(fn, c.anyT.Obj().Name(), c.stateField) {
-			v, ok := constInt(stripConv(st.Val))
+		for _, w := range c.stateWrites(fn) {
+			st := w.At
+			v, ok := constInt(stripConv(w.Val))
 			if !ok || (v != c.consts["Starting"] && v != c.consts["Stopping"]) {
 				continue
 			}
@@ -1209,7 +1285,7 @@ func (c *c10ctx) ruleR3f() {
 				}
 				// no path load -> Unlock -> store
 				broken := false
-				for _, un := range ReachAvoiding(fn, in, func(x ssa.Instruction) bool { return x == ssa.Instruction(st) }, func(x ssa.Instruction) bool {
+				for _, un := range ReachAvoiding(fn, in, func(x ssa.Instruction) bool { return x == st }, func(x ssa.Instruction) bool {
 					if _, isDefer := x.(*ssa.Defer); isDefer {
 						return false
 					}
